@@ -1,6 +1,6 @@
 #!/bin/bash
 # seedrun.sh <patch> <ID> [tier]   apply a seeded change to /repo, run one check, undo.
-patch=$1; id=$2; tier=${3:-quick}
+patch=$(realpath "$1"); id=$2; tier=${3:-quick}
 cd /verif
 if [ -n "$(git -C /repo status --porcelain)" ]; then echo "/repo not clean"; exit 2; fi
 cp evidence/$id.json .work/evidence-backup-$id.json 2>/dev/null
